@@ -31,6 +31,9 @@ type C19Case struct {
 	// "tcp-ingress" (an ingress with tcp-service-port) and "default-backend-service" (annotation of the
 	// Service named by --default-backend-service)
 	Extra []C19Snippet `json:"extra,omitempty"`
+	// SameName: the tcp ingress has the namespace/name of the default backend's Service (two sources of distinct
+	// kinds with the same full name)
+	SameName bool `json:"sameName,omitempty"`
 }
 
 var c19Pool = []string{"server", "http-request", "acl", "use-server", "timeout", "option"}
@@ -97,11 +100,13 @@ func genC19(t *rapid.T) C19Case {
 	if rapid.Bool().Draw(t, "global") {
 		c.Global = []string{"timeout tunnel 77s", "option dontlog-normal"}
 	}
+	both := chanceT(t, "extra-both", 20)
 	for _, on := range []string{"tcp-ingress", "default-backend-service"} {
-		if chanceT(t, "extra-"+on, 30) {
+		if both || chanceT(t, "extra-"+on, 30) {
 			c.Extra = append(c.Extra, genC19Snippet(t, on, &n))
 		}
 	}
+	c.SameName = len(c.Extra) == 2 && rapid.Bool().Draw(t, "samename")
 	return c
 }
 
@@ -130,13 +135,17 @@ func c19World(c C19Case) []*world.Obj {
 		}
 	}
 	objs = append(objs, ing["ingress1"], ing["ingress2"])
+	tcpIngName := "i3"
+	if c.SameName {
+		tcpIngName = "s3"
+	}
 	for _, sn := range c.Extra {
 		switch sn.On {
 		case "tcp-ingress":
 			objs = append(objs,
 				&world.Obj{Kind: world.KService, NS: "a", Name: "s2", Ports: []world.SvcPort{{Name: "http", Port: 80, Target: "8080"}}},
 				&world.Obj{Kind: world.KEndpoints, NS: "a", Name: "s2", Subsets: []world.Subset{{Ready: []world.Addr{{IP: "10.1.2.1"}}, Ports: []world.SvcPort{{Name: "http", Port: 8080}}}}},
-				&world.Obj{Kind: world.KIngress, NS: "a", Name: "i3", Created: 3, ClassName: sp(world.OurClass),
+				&world.Obj{Kind: world.KIngress, NS: "a", Name: tcpIngName, Created: 3, ClassName: sp(world.OurClass),
 					Ann:   map[string]string{"tcp-service-port": "7000", "config-backend": c19Text(sn)},
 					Rules: []world.Rule{{Host: "h3.local", Paths: []world.Path{{Path: "/", Type: "Prefix", Svc: "s2", Port: "80"}}}}})
 		case "default-backend-service":
